@@ -19,7 +19,7 @@ TRIPLES = ["x86_64-linux-gnu", "aarch64-linux-musl", "riscv64-linux-gnu"]
 
 A_WRAP = ["posix_spawnp", "posix_spawn_file_actions_init", "posix_spawn_file_actions_adddup2",
           "posix_spawn_file_actions_destroy", "pipe", "fcntl", "close", "wait", "waitpid", "kill",
-          "mkstemp", "unlink", "readlink", "access", "exit", "atexit", "malloc", "realloc", "strdup"]
+          "mkstemp", "unlink", "readlink", "access", "_exit", "sigprocmask", "pthread_sigmask", "sigaction", "signal", "__sysv_signal", "exit", "atexit", "malloc", "realloc", "strdup"]
 # symbols the driver may import without going through the simulator
 A_PURE = {"fprintf", "fputc", "vfprintf", "perror", "stderr", "strerror", "strsignal", "memcmp", "memcpy",
           "strchr", "strcmp", "strcpy", "strlen", "strncmp", "strrchr", "__errno_location", "environ",
@@ -31,7 +31,7 @@ A_PURE = {"fprintf", "fputc", "vfprintf", "perror", "stderr", "strerror", "strsi
           "memchr", "memrchr", "strtol", "strtoul", "strtoll", "strtoull", "atoi", "atol", "isalpha", "isdigit", "isalnum",
           "isspace", "isupper", "islower", "tolower", "toupper", "__ctype_b_loc", "__ctype_tolower_loc", "__ctype_toupper_loc",
           "sprintf", "vsnprintf", "vsprintf", "__sprintf_chk", "__snprintf_chk", "__vsnprintf_chk", "qsort", "bsearch", "abs",
-          "fflush", "stdout", "printf", "__printf_chk", "putchar", "fputs", "bcmp", "calloc", "sigemptyset", "sigaddset"}
+          "fflush", "stdout", "printf", "__printf_chk", "putchar", "fputs", "bcmp", "calloc", "sigemptyset", "sigaddset", "sigfillset", "sigdelset", "sigismember"}
 
 
 class HarnessError(Exception):
